@@ -12,15 +12,30 @@ import re
 
 import vcheck as V
 
+META = {
+    "engine": "lockset",
+    "technique": "generated lock/access summary + Coq-verified lockset discipline (all interleavings) + Go race detector cross-check",
+    "level_text": ("A general theorem, proved once in Coq, says that a program accepted by the computable lock discipline has no data race in any "
+                   "execution: any number of sessions, any number of concurrent callers of every public method, any interleaving the mutexes permit. "
+                   "A translator regenerates from the current Go sources the control-flow graphs of lock operations and field accesses of every thread "
+                   "root (47 roots: all exported non-deprecated methods of UDPSession and Listener, every goroutine body, the scheduler callback, the "
+                   "output closure, the constructors), and the discipline is evaluated on that term inside Coq with no exclusion list; Coq also re-checks "
+                   "that lock sets are consistent along every edge. The summary itself is validated on the real code by the Go race detector over a "
+                   "stress harness that drives all those methods concurrently with traffic under several cipher/FEC classes; a detector report is a "
+                   "violation, and one on a pair the summary calls ordered marks the tie as broken."),
+    "level_note": ("Partial: the proof is over the extracted summary, whose extraction (verif-extract-lockset) is trusted and cross-checked by the detector. "
+                   "Abstraction: locations are (type, field) and package variables, one abstract instance per type split into session-owned and shared; "
+                   "memory reached through local aliases (pool buffers, double-buffer swap) is not modelled. Happens-before = program order, publication "
+                   "before goroutine start, mutex release->acquire (a subset of the Go memory model). Outside: third-party packages, the standard "
+                   "library, user callbacks, the Go runtime, the detector's schedule coverage; production build (no tag debug)."),
+}
+
 ENGINE = "lockset"
 FILES = ["lockset_test.go"]
 COQDIR = os.path.join(V.VERIF, "coq", ENGINE)
 
-GENERAL = ["c14_lockset_sound", "c14_lockset_sound_except", "c14_common_lock_ordered", "c14_kcpgo_well_bracketed"]
-# the pairs the unchanged code is known (DESIGN section 6) to leave unguarded; statement file per state
-F6 = ("api:UDPSession.SetMtu", "api:UDPSession.GetOOBMaxSize", "KCP.mtu")
-F7 = [("api:UDPSession.SetLogger", "api:UDPSession.SetLogger", "KCP.logmask"),
-      ("api:UDPSession.SetLogger", "api:UDPSession.SetLogger", "KCP.log")]
+OBLIGATIONS = ["c14_lockset_sound", "c14_lockset_sound_except", "c14_common_lock_ordered", "c14_kcpgo_well_bracketed",
+               "c14_kcpgo_race_free", "c14_no_race"]
 
 
 def norm_pair(p):
@@ -39,6 +54,8 @@ Definition lname (x : sloc) : string :=
   match find (fun p => sloc_eqb (fst p) x) loc_names with Some p => snd p | None => "?"%string end.
 Eval vm_compute in ("OK"%string, discipline_ok kcpgo_access).
 Eval vm_compute in ("WB"%string, thread_ok (p_main kcpgo_access) && forallb thread_ok (p_roots kcpgo_access))%bool.
+Eval vm_compute in ("FIRST"%string, match first_bad_pair [] kcpgo_access with
+  | Some (a1, a2) => [(rname (a_root a1), rname (a_root a2), lname (a_loc a1))] | None => [] end).
 Eval vm_compute in ("BAD"%string, map (fun p => (rname (fst (fst p)), rname (snd (fst p)), lname (snd p))) (bad_root_pairs [] kcpgo_access)).
 Eval vm_compute in ("CATS"%string, map (fun c => count_cat [] kcpgo_access c) [CReadOnly; CAtomic; CLocked; CConfined; CPairwise; CBad]).
 Eval vm_compute in ("SIZE"%string, List.length (p_roots kcpgo_access), List.length (accs kcpgo_access), List.length (locs_of (accs kcpgo_access))).
@@ -199,23 +216,13 @@ def run(ctx):
             if pr is None:
                 ctx.broke("probe of the generated summary failed", V.tail_err(op))
     bad = [norm_pair(p) for p in (pr or {}).get("bad") or []]
-    f6_open = norm_pair(F6) in bad
-    f7_open = any(norm_pair(p) in bad for p in F7)
-    if f6_open and f7_open:
-        vfile, obl, refuted = "C14_open.v", ["c14_refuted_discipline", "c14_refuted_F6", "c14_refuted_F7", "c14_refuted_exactly",
-                                             "c14_kcpgo_race_free_except", "c14_races_only_findings"], ("c14_refuted_discipline", "c14_refuted_F6", "c14_refuted_F7", "c14_refuted_exactly")
-    elif f6_open:
-        vfile, obl, refuted = "C14_openF6.v", ["c14_refuted_discipline", "c14_refuted_F6", "c14_refuted_exactly",
-                                               "c14_kcpgo_race_free_except", "c14_races_only_findings"], ("c14_refuted_discipline", "c14_refuted_F6", "c14_refuted_exactly")
-    elif f7_open:
-        vfile, obl, refuted = "C14_openF7.v", ["c14_refuted_discipline", "c14_refuted_F7", "c14_refuted_exactly",
-                                               "c14_kcpgo_race_free_except", "c14_races_only_findings"], ("c14_refuted_discipline", "c14_refuted_F7", "c14_refuted_exactly")
-    else:
-        # also when some OTHER pair is undisciplined: the full theorem then fails to compile and is reported
-        vfile, obl, refuted = "C14.v", ["c14_kcpgo_race_free", "c14_no_race"], ()
-    partial = tuple(t for t in obl if t in ("c14_kcpgo_race_free_except", "c14_races_only_findings"))
-    ctx.prove(ENGINE, vfile, GENERAL + obl, partial=partial, refuted=refuted)
-    ctx.coverage["statement_file"] = vfile
+    ctx.prove(ENGINE, "C14.v", OBLIGATIONS)
+    if bad:
+        # c14_kcpgo_race_free no longer holds: name the undisciplined pairs (Gallina: bad_root_pairs / first_bad_pair)
+        ctx.broke("c14_kcpgo_race_free refuted on the regenerated summary: undisciplined access pair(s) " +
+                  "; ".join("%s ~ %s on %s" % p for p in bad), (pr or {}).get("raw", ""))
+    elif pr and not pr["ok"]:
+        ctx.broke("discipline_ok kcpgo_access computes to false (lock sets inconsistent along an edge?)", pr.get("raw", ""))
     if pr:
         ctx.coverage["summary"] = {k: pr[k] for k in ("roots", "accesses", "locations", "categories") if k in pr}
         ctx.coverage["undisciplined_pairs"] = ["%s ~ %s on %s" % p for p in bad]
